@@ -366,7 +366,9 @@ def read_context_rules(rep, rule, prog):
     ld = prog.fn(nx.N + "::kql::Context::<'a>::load")
     rep.saw(ld, len(ld.events))
     ea = ld.calls_named(r"Store>?::element_at$")
-    ge = ld.calls_named(r"store::Store::get_element$")
+    # the present row may also be fetched on the bound edge - after the historical one, to put it to the access decision (C19 R19.8);
+    # what the routing rule is about is the row that is admitted and returned
+    ge = [e for e in ld.calls_named(r"store::Store::get_element$") if not any(ld.dominates(h.block, e.block) and h.block != e.block for h in ea)]
     ad = ld.calls_named(r"kql::Context::<'a>::admit$")
     some = [m.get("Some") for (sb, place, adt, m, els) in ld.variant_edges() if adt == "core::option::Option" and "as_of" in (set(place.fields()) | ld.slice_fields({"c": {"l": place.l}}))]
     none = [m.get("None") for (sb, place, adt, m, els) in ld.variant_edges() if adt == "core::option::Option" and "as_of" in (set(place.fields()) | ld.slice_fields({"c": {"l": place.l}}))]
